@@ -54,6 +54,13 @@ def build_filters(ctx, features_drop=()):
                     ast.Compare(ast.Eq(), call("length", S(s)), call("length", I("s1")))]
     filters += [ast.Compare(ast.Eq(), ast.Null(), I("i1")), ast.Compare(ast.NotEq(), ast.Null(), I("s1")),
                 ast.Compare(ast.Eq(), I("b1"), ast.Boolean("TRUE")), ast.Compare(ast.Eq(), I("b1"), ast.Boolean("False")), ast.Compare(ast.NotEq(), I("b1"), ast.Boolean("true"))]
+    # every spelling of the Boolean literals x eq / ne x operand kind x side (the lexer is case-insensitive; the node keeps the spelling)
+    for sp in ("true", "TRUE", "True", "tRuE", "false", "FALSE", "False", "fAlSe"):
+        for cmpop in (ast.Eq, ast.NotEq):
+            for operand in (I("b1"), call("contains", I("s1"), S("a")), call("startswith", I("s2"), S("A")), ast.Compare(ast.Gt(), I("i1"), ast.Integer("0")),
+                            ast.Compare(ast.In(), I("i2"), ast.List([ast.Integer("0"), ast.Integer("7")]))):
+                filters.append(ast.Compare(cmpop(), operand, ast.Boolean(sp)))
+                filters.append(ast.Compare(cmpop(), ast.Boolean(sp), operand))
     uniq = sc.dedup(filters)
     nodes = [n for w, n in uniq]
     texts = texts_of(nodes)
